@@ -230,7 +230,48 @@ func C05(c *Ctx) {
 			}
 		}
 	}
-	r.Floor("C05-8", "stores to captured bool flags in candidate handlers", nf, 1)
+	if nf == 0 {
+		// the handler keeps no flag: what suppresses the `no match` verdict is then the captured result itself. The demand is the
+		// same – a member-wise copy counts only if it produced a line: every NestStruct stored into the captured result is stored
+		// under `0 < len(Contents)` (an empty one stored there would end the search with neither assignment, comment nor warning)
+		for _, dm := range c.defaultMatchers() {
+			seen := map[*ssa.Function]bool{}
+			for _, s := range append(c.CallsIn(dm, fnIterMethods, false), c.CallsIn(dm, fnIterFields, false)...) {
+				mc, ok := s.Args()[1].(*ssa.MakeClosure)
+				if !ok || seen[mc.Fn.(*ssa.Function)] {
+					continue
+				}
+				h := mc.Fn.(*ssa.Function)
+				seen[h] = true
+				for _, b := range h.Blocks {
+					for _, in := range b.Instrs {
+						st, ok := in.(*ssa.Store)
+						if !ok {
+							continue
+						}
+						fv, ok := st.Addr.(*ssa.FreeVar)
+						if !ok {
+							continue
+						}
+						mi, ok := st.Val.(*ssa.MakeInterface)
+						if !ok || !strings.HasSuffix(mi.X.Type().String(), "generator/model.NestStruct") {
+							continue
+						}
+						nf++
+						produced := c.M(true, func(t *core.Term) bool {
+							return t.Kind == "binop" && (t.Name == "<" || t.Name == ">") && t.Contains(func(x *core.Term) bool {
+								return x.IsCallTo("builtin:len") && x.Args[0].IsField("model.NestStruct.Contents")
+							})
+						})
+						d := c.ReachOf(st)
+						r.Check("C05-8", FnKey(h)+":result:"+fv.Name()+":only-when-produced", c.InstrPos(st), d.Implies(produced),
+							"a member-wise copy is stored as the candidate's result whether or not it produced anything: a struct field whose members are all invisible then gets neither an assignment nor a `no match` line nor a warning; reach: "+d.Describe(c.O))
+					}
+				}
+			}
+		}
+	}
+	r.Floor("C05-8", "stores to captured bool flags (or of member-wise copies into the captured result) in candidate handlers", nf, 1)
 }
 
 func isErrTyped(a, b *core.Term) bool {
